@@ -260,6 +260,13 @@ Definition prog (k : kind) : list stage := match k with KForm => form_prog | _ =
 
 Definition cont (b : bool) (x : hctx) : hctx + hctx := if b then inl x else inr x.
 
+(** consensus refuses a transaction that names the same parent output twice, whatever the
+    chain state (core consensus/validation.go validateV2Siacoins "double-spends parent
+    output"): the pool's verdict on the full set is the input bit and this *)
+Fixpoint nodupb (l : list N) : bool :=
+  match l with [] => true | i :: l' => negb (existsb (N.eqb i) l') && nodupb l' end.
+Definition pool_verdict (e : env) (rin : list (N * Z)) : bool := e_pool_ok e && nodupb (pids rin).
+
 (** one stage; [inl] continues, [inr] is a [return err] with the locals at that point *)
 Definition exec (k : kind) (e : env) (m1 : option req) (m2 : option rsigs)
     (st : stage) (x : hctx) : hctx + hctx :=
@@ -341,8 +348,9 @@ Definition exec (k : kind) (e : env) (m1 : option req) (m2 : option rsigs)
       match x_set x with
       | None => inr x
       | Some s =>
-          let x1 := add_call x (CPoolSet (e_pool_ok e)) in
-          if e_pool_ok e then inl (set_h x1 (h_add_pool (x_h x1) s)) else inr x1
+          let v := pool_verdict e (x_rin x) in
+          let x1 := add_call x (CPoolSet v) in
+          if v then inl (set_h x1 (h_add_pool (x_h x1) s)) else inr x1
       end
   | SRecord =>
       match x_contract x with
@@ -398,6 +406,62 @@ Definition host_run_prog (fixed : bool) (k : kind) (e : env) (p : list stage) (h
 Definition host_run (fixed : bool) (k : kind) (e : env) (h : host)
     (m1 : option req) (m2 : option rsigs) : hout :=
   host_run_prog fixed k e (prog k) h m1 m2.
+
+(** ** What the property asks of a failed attempt's call trace
+
+    The property fixes the state a failed attempt leaves behind (no contract, nothing
+    reserved), not the stage at which a doomed request is turned down: a handler may refuse
+    it earlier (or later) than the transcription above.  A trace of a failed attempt is
+    [admissible] when its calls follow the handler's order, the first call that fails is
+    the last one, nothing was recorded, broadcast or accepted by the pool, and exactly what
+    was funded was released (the release may be omitted when nothing was funded).  The
+    traces of the model are admissible (FormProofs); Run_C16 accepts an observed failing
+    trace that differs from the model's if it is admissible and the resulting state agrees. *)
+Definition call_rank (k : kind) (c : hcall) : option nat :=
+  match c with
+  | CElement _ => if is_renewal k then Some 1%nat else None
+  | CFund _ | CFundFail => Some 2%nat
+  | CUpdate _ => Some 3%nat
+  | CElemUpdate _ => if is_renewal k then Some 4%nat else None
+  | CPoolParents _ => Some 5%nat
+  | CTxSet _ => Some 6%nat
+  | CPoolSet false => Some 7%nat
+  | _ => None
+  end.
+Definition call_failed (c : hcall) : bool :=
+  match c with
+  | CFundFail | CElement false | CUpdate false | CElemUpdate false
+  | CPoolParents false | CTxSet false | CPoolSet false => true
+  | _ => false
+  end.
+Fixpoint ordered_body (k : kind) (last : nat) (l : list hcall) : bool :=
+  match l with
+  | [] => true
+  | c :: l' =>
+      match call_rank k c with
+      | None => false
+      | Some r => Nat.ltb last r &&
+                  (if call_failed c then match l' with [] => true | _ => false end
+                   else ordered_body k r l')
+      end
+  end.
+Fixpoint funded_of (l : list hcall) : option nat :=
+  match l with [] => None | CFund n :: _ => Some n | _ :: l' => funded_of l' end.
+Fixpoint split_release (l : list hcall) : list hcall * option nat :=
+  match l with
+  | [] => ([], None)
+  | [CRelease n] => ([], Some n)
+  | c :: l' => let '(b, r) := split_release l' in (c :: b, r)
+  end.
+Definition admissible_failure (k : kind) (calls : list hcall) : bool :=
+  let '(body, rel) := split_release calls in
+  ordered_body k 0 body &&
+  match funded_of body, rel with
+  | Some n, Some m => Nat.eqb n m
+  | Some n, None => Nat.eqb n 0
+  | None, Some m => Nat.eqb m 0
+  | None, None => true
+  end.
 
 (** ** Renter (rpc.go) *)
 Record renter := mk_renter { r_key : N; r_wallet : wallet; r_contracts : list contract }.
